@@ -218,7 +218,7 @@ class Register:
 
         context = context or {}
 
-        if self.size is not None and idx >= self.size:
+        if self.size is not None and (idx >= self.size or idx < 0):
             raise JaqalError("Index out of range.")
         if self.fundamental:
             return (self, idx)
@@ -302,7 +302,7 @@ class NamedQubit:
                 from_size = int(alias_from.size)
             except JaqalError:
                 return
-            if alias_index >= from_size:
+            if alias_index >= from_size or alias_index < 0:
                 raise JaqalError("Index out of range.")
 
     def __hash__(self):
